@@ -13,29 +13,42 @@ timeouts, unmarshalable values — unless the request is an access request to a 
 registered without access handler -/
 theorem one_response (cfg : HCfg) (r : ReqIn) (script : List Action) (h : ¬ Unanswered cfg r) :
     (responses (process cfg r script)).length = 1 := by
-  sorry
+  rcases process_cases cfg r script with ⟨hu, _⟩ | ⟨_, p, hp, he⟩ | ⟨_, kind, _, _, _, he⟩
+  · exact absurd hu h
+  · rw [he, responses_reply p hp.isPre]; rfl
+  · rw [he]; exact responses_finish_length _ _ _ _ (replyInv_seen0 _ _)
 
 /-- … and that one stays unanswered (no response, no effect at all) -/
 theorem unanswered_silent (cfg : HCfg) (r : ReqIn) (script : List Action) (h : Unanswered cfg r) :
     process cfg r script = [] := by
-  sorry
+  rcases process_cases cfg r script with ⟨_, he⟩ | ⟨hu, _⟩ | ⟨hu, _⟩
+  · exact he
+  · exact absurd h hu
+  · exact absurd h hu
 
 /-- at no point of the execution have two responses been published (the second reply attempt
 panics inside the library and the recover arm publishes nothing more) -/
 theorem never_two_responses (cfg : HCfg) (r : ReqIn) (script : List Action) (k : Nat) :
     (responses ((process cfg r script).take k)).length ≤ 1 := by
-  sorry
+  have hle : (responses (process cfg r script)).length ≤ 1 := by
+    by_cases h : Unanswered cfg r
+    · simp [unanswered_silent cfg r script h, responses]
+    · rw [one_response cfg r script h]; exact Nat.le_refl 1
+  exact Nat.le_trans (responses_take_length_le _ k) hle
 
 /-- once replied, a script step never publishes another response (whatever it is) -/
 theorem act_after_reply (cfg : HCfg) (r : ReqIn) (s : St) (a : Action) (hr : s.replied = true) :
     responses (stepSt (act cfg r s a)).effs = responses s.effs ∧ (stepSt (act cfg r s a)).replied = true := by
-  sorry
+  exact (act_next cfg r s a).after_reply hr
 
 /-- a panic of any kind in the handler is absorbed: the effects of the request are the effects
 up to the panic plus at most the error response -/
 theorem panic_absorbed (cfg : HCfg) (r : ReqIn) (s : St) (p : PanicV) :
     (recoverArm s p).effs = s.effs ∨ ∃ payload, (recoverArm s p).effs = s.effs ++ [.pub replySubj payload] := by
-  sorry
+  have _ := cfg; have _ := r
+  rcases finish_cases (.panic s p) with ⟨_, h⟩ | ⟨_, q, _, h⟩
+  · exact Or.inl h
+  · exact Or.inr ⟨q, h⟩
 
 /-! ## non-vacuity -/
 def cfg0 : HCfg := ⟨true, true, true, [[109]], [], 1, .absent, .absent, .absent, .absent, .absent, 0⟩
